@@ -197,6 +197,17 @@ def _multi_case(rng: Rng):
 def gen_cases(rng: Rng, tier):
     n = dict(quick=330, thorough=4400)[tier]
     big = tier == "thorough"
+    # inputs left as they were + argument objects reused: ONE ndarray / ONE DenseArgvals serves several bases (grids not starting at 0)
+    sgrid = {"legendre": [Fraction(-1) + Fraction(i, 6) for i in range(13)], "other": [Fraction(3) + Fraction(i * i, 32) for i in range(9)],
+             "wiener": [Fraction(1, 8) + Fraction(i, 16) for i in range(13)]}
+    for fa, fb in [("fourier", "legendre"), ("fourier", "bsplines"), ("fourier", "wiener"), ("fourier", "fourier"), ("legendre", "fourier"),
+                   ("bsplines", "legendre"), ("wiener", "bsplines")]:
+        g = sgrid["legendre"] if "legendre" in (fa, fb) else (sgrid["wiener"] if "wiener" in (fa, fb) else sgrid["other"])
+        for sc in ("same_array_both_directions", "shared_argvals_in_multivariate", "successive_calls_on_one_argvals"):
+            c = dict(kind="shared", scenario=sc, fam=[fa, fb], n=[3, 3], p=2, add=True, x=[rs(v) for v in g], structured=True)
+            if "bsplines" in (fa, fb):
+                c.update(dmin=rs(g[0]), dmax=rs(g[-1]))
+            yield c
     # options meant for ONE family reaching another: the documented keywords of Basis / _simulate_basis (degree, domain_min,
     # domain_max) handed to every family, alone and inside mixed multi-dimensional / multivariate bases — same cases in every run
     fgrid = {"fourier": [Fraction(1) + Fraction(i, 8) for i in range(17)], "wiener": [Fraction(i, 16) for i in range(17)],
@@ -399,8 +410,14 @@ def _Fv(v):
     return [F(x) for x in v]
 
 
+_REG = []
+
+
 def _arr(v):
-    return np.array(fl(_Fv(v)), dtype=float)
+    """A fresh float array for the code under test; a private copy is kept to detect in-place changes of the caller's data."""
+    a = np.array(fl(_Fv(v)), dtype=float)
+    _REG.append((a, a.copy()))
+    return a
 
 
 def _sim(fam, x, n, norm, add, **kw):
@@ -446,7 +463,51 @@ def _finite(a):
     return bool(np.all(np.isfinite(a)))
 
 
+def _run_shared(case):
+    """Several bases built from ONE sampling array / ONE DenseArgvals object, each compared with a basis built from fresh copies."""
+    from FDApy.representation.argvals import DenseArgvals
+    from FDApy.representation.basis import Basis, MultivariateBasis
+
+    f1, f2 = case["fam"]
+    n1, n2 = case["n"]
+    kw = _multi_kwargs(case)
+    flat = lambda v: np.asarray(v).reshape(np.shape(v)[0], -1)  # noqa: E731
+    out = {"scenario": case["scenario"]}
+    x = _arr(case["x"])
+    fresh = lambda: np.array(fl(_Fv(case["x"])), dtype=float)  # noqa: E731
+    if case["scenario"] == "same_array_both_directions":
+        b = Basis(name=(f1, f2), n_functions=(n1, n2), argvals=DenseArgvals({"s": x, "t": x}), add_intercept=case["add"], **kw)
+        r = Basis(name=(f1, f2), n_functions=(n1, n2), argvals=DenseArgvals({"s": fresh(), "t": fresh()}), add_intercept=case["add"], **kw)
+        out["got"], out["ref"] = [flat(b.values).tolist()], [flat(r.values).tolist()]
+    elif case["scenario"] == "shared_argvals_in_multivariate":
+        arg = DenseArgvals({"t": x})
+        mb = MultivariateBasis(name=[f1, f2], n_functions=[n1, n1], argvals=[arg, arg], add_intercept=case["add"], **kw)
+        rf = MultivariateBasis(name=[f1, f2], n_functions=[n1, n1], argvals=[DenseArgvals({"t": fresh()}), DenseArgvals({"t": fresh()})],
+                               add_intercept=case["add"], **kw)
+        out["got"], out["ref"] = [flat(c.values).tolist() for c in mb.data], [flat(c.values).tolist() for c in rf.data]
+    else:  # successive_calls_on_one_argvals
+        arg = DenseArgvals({"t": x})
+        b1 = Basis(name=f1, n_functions=n1, argvals=arg, add_intercept=case["add"], **kw)
+        b2 = Basis(name=f2, n_functions=n2, argvals=arg, add_intercept=case["add"], **kw)
+        b3 = Basis(name=f1, n_functions=n1, argvals=arg, add_intercept=case["add"], **kw)
+        r1 = Basis(name=f1, n_functions=n1, argvals=DenseArgvals({"t": fresh()}), add_intercept=case["add"], **kw)
+        r2 = Basis(name=f2, n_functions=n2, argvals=DenseArgvals({"t": fresh()}), add_intercept=case["add"], **kw)
+        out["got"] = [flat(b1.values).tolist(), flat(b2.values).tolist(), flat(b3.values).tolist()]
+        out["ref"] = [flat(r1.values).tolist(), flat(r2.values).tolist(), flat(r1.values).tolist()]
+    return out
+
+
 def run_impl(case):
+    del _REG[:]
+    out = _run_impl(case)
+    changed = [i for i, (a, a0) in enumerate(_REG) if not np.array_equal(a, a0, equal_nan=True)]
+    if changed:
+        a, a0 = _REG[changed[0]]
+        out["inputs_changed"] = f"{len(changed)} of the {len(_REG)} arrays handed to the basis code were modified in place (first: {a0[:4].tolist()}… became {a[:4].tolist()}…)"
+    return out
+
+
+def _run_impl(case):
     import warnings
 
     from FDApy.misc.basis import _basis_bsplines
@@ -455,6 +516,8 @@ def run_impl(case):
     warnings.simplefilter("ignore")
     kind = case["kind"]
     out = {}
+    if kind == "shared":
+        return _run_shared(case)
     if kind == "bs":
         x = _arr(case["x"])
         kw = {} if case["default_dom"] else dict(domain_min=float(F(case["dmin"])), domain_max=float(F(case["dmax"])))
@@ -967,6 +1030,18 @@ def oracle(case, impl):
     def bad(clause, msg, entry):
         vs.append(dict(clause=clause, entry=entry, msg=msg))
 
+    if impl.get("inputs_changed"):
+        bad("input_unchanged", impl["inputs_changed"] + f" (case kind {kind}, famil(y/ies) {case.get('fam', [c['fam'] for c in case.get('comps', [])])})",
+            {"bs": "_basis_bsplines", "sim": "_simulate_basis", "simedge": "_simulate_basis", "ortho": "_simulate_basis", "multi": "MultivariateBasis"}.get(kind, "Basis"))
+    if kind == "shared":
+        for i, (g, r) in enumerate(zip(impl["got"], impl["ref"])):
+            if not np.array_equal(np.array(g), np.array(r), equal_nan=True):
+                d = np.nanmax(np.abs(np.array(g) - np.array(r))) if np.shape(g) == np.shape(r) else float("nan")
+                bad("shared_argument", f"{impl['scenario']} (families {case['fam']}, grid starting at {float(F(case['x'][0]))}): basis {i} built from the shared "
+                    f"array / DenseArgvals differs from the one built from fresh copies by {d:.3g}", "Basis" if "multivariate" not in impl["scenario"] else "MultivariateBasis")
+                break
+        return vs
+
     if kind == "bs":
         a, b = _dom(case)
         if impl["shape"] != [case["nfun"], len(case["x"])]:
@@ -1125,6 +1200,8 @@ def classify(case, impl):
     if case["kind"] == "multi":
         tags.append("multi:dims=" + "+".join(str(len(c["n"])) for c in case["comps"]))
         tags.append(f"multi:degree={case.get('p')},domain={'explicit' if 'dmin' in case else 'default'}")
+    if case["kind"] == "shared":
+        tags.append("shared:" + case["scenario"])
     if case.get("foreign"):
         tags.append("foreign-options:" + "+".join(sorted(case["foreign"])))
     if case.get("xdtype"):
